@@ -120,6 +120,11 @@ def e_uni(chk, thorough):
     # formula whose inner application is hidden behind a conjunction with true
     UT = ('EX', 'AX', 'EF', 'AF', 'EG', 'AG')
     laws += [('iff', (u1, (u2, W)), (u1, ('and', ('true',), (u2, W)))) for u1 in UT for u2 in UT if u1 == u2 or (u1[1] == u2[1])]
+    # an operand that is empty (or everything) everywhere: weak untils degenerate to EG / AG, strong ones to false / the other operand
+    F_, T_ = ('false',), ('true',); CONTRA = ('and', P, ('not', P))
+    laws += [('iff', ('EW', W, F_), ('EG', W)), ('iff', ('AW', W, F_), ('AG', W)), ('iff', ('EW', W, CONTRA), ('EG', W)), ('iff', ('AW', W, CONTRA), ('AG', W)),
+             ('not', ('EU', W, F_)), ('not', ('AU', W, CONTRA)), ('iff', ('EU', T_, W), ('EF', W)), ('iff', ('AU', T_, W), ('AF', W)), ('iff', ('EW', F_, W), W), ('iff', ('AW', F_, W), W),
+             ('iff', ('EX', F_), F_), ('AX', T_), ('iff', ('EG', T_), T_), ('iff', ('AF', F_), F_)]
     laws += [('iff', ('EX', ('EX', W)), ('not', ('AX', ('AX', ('not', W))))), ('iff', ('AX', ('AX', W)), ('not', ('EX', ('EX', ('not', W)))))]
     one_way(chk, thorough)
     chk.bounds['E-UNI'] = 'instances U2, C2 (2 variables, all colours; constrained regulations) and S3 (3 variables, 2 regulators each, 2^12 colours); wild-card sets are arbitrary coloured sets (uninterpreted n-ary parameters)'
